@@ -154,6 +154,25 @@ func runRenumbered(ctx context.Context, boot *world.World, src []ledger.Log, c R
 				break
 			}
 		}
+		// and the first regular write after an accepted import (ids with gaps included) commits
+		// later than every imported log: its log id must be above all of them
+		if ierr == nil && k > 0 {
+			var maxID uint64
+			for _, id := range c.IDs {
+				if id > maxID {
+					maxID = id
+				}
+			}
+			out := lx.Apply(ctx, c2, lx.Op{Kind: "post", Name: "write-after-import", Postings: []lx.P{{Src: "world", Dst: "z", Ast: "USD", Amt: "1"}}})
+			switch {
+			case out.Class == "ENGINE":
+				return nil, false, 0, out.Err
+			case !out.OK():
+				add("C16:import:write-after-import-refused", "the first write after the import failed: %v", out.Err)
+			case out.Log == nil || out.Log.ID == nil || *out.Log.ID <= maxID:
+				add("C16:import:write-after-import-gets-a-smaller-log-id", "the first write after the import got log id %v, the import committed log ids up to %d", out.Log.ID, maxID)
+			}
+		}
 	case "C09":
 		if c.Hashing != "SYNC" {
 			break
@@ -295,7 +314,7 @@ func RenumberedImports(want string) func(r *ev.Run) (map[string]any, bool) {
 			"rejected":           rejected.Load(),
 			"disordered_streams": disordered.Load(),
 			"outcomes":           strings.Join(os, "; "),
-			"rule":               fmt.Sprintf("the export of a %d-log history under EVERY injective assignment of log ids from 1..%d (every order, with and without gaps), hashes re-chained in stream order, imported into an empty ledger per hashing mode; oracle on what the destination holds afterwards (a prefix of the stream, one commit per log in stream order)", n, maxID),
+			"rule":               fmt.Sprintf("the export of a %d-log history under EVERY injective assignment of log ids from 1..%d (every order, with and without gaps), hashes re-chained in stream order, imported into an empty ledger per hashing mode; oracle on what the destination holds afterwards (a prefix of the stream, one commit per log in stream order); C16 also: the first regular write after an import accepted in full gets a log id above every imported one", n, maxID),
 		}, complete
 	}
 }
